@@ -701,6 +701,28 @@ func mayBeGroup(e *Env, v ssa.Value, seen map[ssa.Value]bool) bool {
 	switch x := v.(type) {
 	case *ssa.Const:
 		return false
+	case *ssa.Parameter:
+		// an error handed to a helper (newErrXxx(…, err)): what the callers pass decides
+		fn := x.Parent()
+		idx := -1
+		for i, p := range fn.Params {
+			if p == x {
+				idx = i
+			}
+		}
+		if idx < 0 || fn.Pkg == nil || !e.P.InModulePath(fn.Pkg.Pkg.Path()) {
+			return true
+		}
+		callers := 0
+		for _, c := range moduleCalls(e.P) {
+			if c.ins.Common().StaticCallee() == fn && idx < len(c.ins.Common().Args) {
+				callers++
+				if mayBeGroup(e, c.ins.Common().Args[idx], seen) {
+					return true
+				}
+			}
+		}
+		return callers == 0
 	case *ssa.Phi:
 		for _, ed := range x.Edges {
 			if mayBeGroup(e, ed, seen) {
